@@ -5,12 +5,15 @@ code under /repo (or $SIMV_REPO).  No real clock is read on any path that
 influences a run; wall time is only measured around whole batches for the
 evidence file.
 """
+import atexit
 import hashlib
 import json
 import os
 import random as _pyrandom
+import shutil
 import signal
 import sys
+import tempfile
 import time as _walltime
 import traceback
 import types
@@ -356,3 +359,24 @@ GRID_CT = (0, 0.25, 0.5, 1, 1.5, 2, 3)
 
 def wall():
     return _walltime.time()
+
+
+_HOME = None
+
+
+def scratch_home():
+    """A per-process scratch HOME (with Downloads/) for the library's trace export: below $SIMV_SCRATCH when the command line
+    driver made one (it removes the tree at exit), else a temporary directory removed at interpreter exit."""
+    global _HOME
+    pid = os.getpid()
+    if _HOME is not None and _HOME[0] == pid and os.path.isdir(_HOME[1]):
+        return _HOME[1]
+    base = os.environ.get('SIMV_SCRATCH')
+    if base and os.path.isdir(base):
+        home = os.path.join(base, f'home_{pid}')
+    else:
+        home = tempfile.mkdtemp(prefix='simv_home_')
+        atexit.register(shutil.rmtree, home, True)
+    os.makedirs(os.path.join(home, 'Downloads'), exist_ok=True)
+    _HOME = (pid, home)
+    return home
